@@ -189,7 +189,7 @@ func c06cases(env *core.Env) []c06case {
 	for i := 0; i < env.Pick(10, 60); i++ {
 		cs = append(cs, c06case{Part: "addmount", Rep: i})
 	}
-	for i := 0; i < env.Pick(150, 3000); i++ {
+	for i := 0; i < env.Pick(300, 4000); i++ {
 		cs = append(cs, c06case{Part: "concurrent", Rep: i})
 	}
 	return cs
